@@ -29,6 +29,7 @@ use lightning_signer::persist::Persist;
 use lightning_signer::policy::validator::EnforcementState;
 use lightning_signer::tx::tx::{CommitmentInfo2, HTLCInfo2};
 use lightning_signer::util::status::Status;
+use lightning_signer::util::velocity::{VelocityControl, VelocityControlIntervalType, VelocityControlSpec};
 use lightning_signer::util::test_utils::{
     channel_commitment, counterparty_sign_holder_commitment, TestChannelContext,
 };
@@ -55,6 +56,9 @@ struct Cfg {
     pct: u64,
     /// concurrency leg only: policy.enforce_balance = true, with some initial excess_amount
     enforce: bool,
+    /// policy.global_velocity_control: units per hourly window (0 = unlimited, the default policy); named by
+    /// the specification's configuration ("vlim" of the alphabet / sequence / case)
+    vlim: u64,
 }
 
 fn hash_byte(h: &str) -> u8 {
@@ -110,7 +114,20 @@ fn policy_of(cfg: &Cfg) -> lightning_signer::policy::simple_validator::SimplePol
     }
     p.max_feerate_percentage = cfg.pct as u8;
     p.enforce_balance = cfg.enforce;
+    if cfg.vlim > 0 {
+        p.global_velocity_control =
+            VelocityControlSpec { limit_msat: cfg.vlim * UNIT * 1000, interval_type: VelocityControlIntervalType::Hourly };
+    }
     p
+}
+
+/// what a velocity control holds in its window as it counts at `now` (buckets are rotated lazily, at the
+/// next insert), in units; projection only
+fn window_units(vc: &VelocityControl, now: u64) -> i64 {
+    let now = now.max(vc.start_sec);
+    let nshift = (((now - vc.start_sec) / vc.bucket_interval as u64) as usize).min(vc.buckets.len());
+    let msat: u64 = vc.buckets[..vc.buckets.len() - nshift].iter().sum();
+    if msat % (UNIT * 1000) == 0 { (msat / (UNIT * 1000)) as i64 } else { -2 }
 }
 
 impl World {
@@ -154,10 +171,11 @@ impl World {
         self.fx.node.with_channel(id, |c| Ok(c.enforcement_state.clone())).expect("channel")
     }
 
-    fn make_invoice(&self, h: &str, a: u64) -> Invoice {
+    /// an invoice stamped relative to the clock: 10 s ago, or (expired) 30 days ago with the default expiry of 1 h
+    fn make_invoice(&self, h: &str, a: u64, expired: bool) -> Invoice {
         let x = hash_byte(h);
         let private_key = SecretKey::from_slice(&[42; 32]).unwrap();
-        let ts = self.fx.clock_now().as_secs() - 10;
+        let ts = self.fx.clock_now().as_secs() - if expired { 30 * 24 * 3600 } else { 10 };
         let b = InvoiceBuilder::new(Currency::Regtest)
             .description("test".into())
             .payment_hash(Sha256Hash::hash(&preimage(h).0))
@@ -268,10 +286,14 @@ impl World {
             }
             // approvals go through vls-protocol-signer's approver (has_payment shortcut, approve, add)
             "AddInvoice" => PositiveApprover()
-                .handle_proposed_invoice(node, self.make_invoice(r["h"].as_str().unwrap(), r["a"].as_u64().unwrap()))
+                .handle_proposed_invoice(node, self.make_invoice(r["h"].as_str().unwrap(), r["a"].as_u64().unwrap(), false))
                 .map(|b| json!({"flag": if b { 1 } else { 0 }})),
             "DeclineInvoice" => NegativeApprover()
-                .handle_proposed_invoice(node, self.make_invoice(r["h"].as_str().unwrap(), r["a"].as_u64().unwrap()))
+                .handle_proposed_invoice(node, self.make_invoice(r["h"].as_str().unwrap(), r["a"].as_u64().unwrap(), false))
+                .map(|b| json!({"flag": if b { 1 } else { 0 }})),
+            // an invoice that is past its expiry when it is proposed (the approver itself would approve it)
+            "ExpiredInvoice" => PositiveApprover()
+                .handle_proposed_invoice(node, self.make_invoice(r["h"].as_str().unwrap(), r["a"].as_u64().unwrap(), true))
                 .map(|b| json!({"flag": if b { 1 } else { 0 }})),
             // the receive path: the node signs an invoice of its own and remembers it as issued
             "IssueInvoice" => {
@@ -381,6 +403,8 @@ impl World {
         let mut iss = Map::new();
         let mut pay = Map::new();
         let mut extra = 0;
+        // the payment velocity window (only under a finite limit: an unlimited control is not part of the model)
+        let vel = if self.cfg.vlim > 0 { window_units(&self.fx.node.get_state().velocity_control, now) } else { 0 };
         let units = |sat: u64| -> i64 { if sat % UNIT == 0 { (sat / UNIT) as i64 } else { -2 } };
         {
             let st = self.fx.node.get_state();
@@ -419,6 +443,11 @@ impl World {
         let mut ppre = Map::new();
         let mut piss = Map::new();
         let nodes = self.fx.store.get_nodes().expect("get_nodes");
+        let pvel = if self.cfg.vlim > 0 {
+            nodes.iter().map(|(_, e)| window_units(&e.state.velocity_control, now)).next().unwrap_or(0)
+        } else {
+            0
+        };
         for h in &self.cfg.hashes {
             let e = nodes.iter().find_map(|(_, e)| e.state.issued_invoices.get(&payment_hash(h)));
             piss.insert(h.clone(), issued_json(e, now));
@@ -433,7 +462,8 @@ impl World {
                 "nextH": self.content_json(es.next_holder_commit_info.as_ref().map(|x| &x.0), false),
                 "curC": self.content_json(es.current_counterparty_commit_info.as_ref(), true)}));
         }
-        let mut o = json!({"inv": inv, "iss": iss, "piss": piss, "pay": pay, "ppre": ppre, "ch": ch, "time": if now >= LATE_SECS { 1 } else { 0 }});
+        let mut o = json!({"inv": inv, "iss": iss, "piss": piss, "pay": pay, "ppre": ppre, "ch": ch, "time": if now >= LATE_SECS { 1 } else { 0 },
+                            "vel": vel, "pvel": pvel});
         if extra > 0 {
             o["extra"] = json!(extra);
         }
@@ -449,7 +479,11 @@ impl World {
     /// numbers, points and revocation secrets are left out: the ledger does not depend on them)
     fn key(&self, proj: &Value) -> String {
         let mut ns = node_state_json(&self.fx.node.get_state(), self.fx.network);
+        // (an unlimited velocity control only accumulates; a limited one is part of the state)
         for k in ["vc", "fvc", "dbid", "allow"] {
+            if k == "vc" && self.cfg.vlim > 0 {
+                continue;
+            }
             ns.as_object_mut().unwrap().remove(k);
         }
         let mut cs = vec![];
@@ -548,7 +582,7 @@ fn read_cfg(alpha: &Value) -> Cfg {
         l
     };
     Cfg { chans: strs(&alpha["chans"]), hashes: strs(&alpha["hashes"]), fee_units: arg_u64("fee", 0), pct: arg_u64("pct", 10),
-          enforce: arg_u64("enforce", 0) == 1 }
+          enforce: arg_u64("enforce", 0) == 1, vlim: alpha.get("vlim").and_then(|v| v.as_u64()).unwrap_or(0) }
 }
 
 fn explore() {
@@ -691,7 +725,7 @@ fn run_seqs() {
         if line.trim().is_empty() {
             continue;
         }
-        // {"chans": [...], "hashes": [...], "reqs": [...]}
+        // {"chans": [...], "hashes": [...], "reqs": [...], "vlim": n (optional)}
         let item: Value = serde_json::from_str(line).unwrap();
         let cfg = read_cfg(&item);
         let mut w = World::new(&cfg);
@@ -735,7 +769,7 @@ fn conc() {
         if line.trim().is_empty() {
             continue;
         }
-        // {"id": n, "chans": [...], "hashes": [...], "prefix": [...], "a": req, "b": req}
+        // {"id": n, "chans": [...], "hashes": [...], "prefix": [...], "a": req, "b": req, "vlim": n (optional)}
         let case: Value = serde_json::from_str(line).unwrap();
         let ci = case["id"].as_u64().unwrap();
         let cfg = read_cfg(&case);
